@@ -727,6 +727,21 @@ def run(ctx):
                   "the %s write happens on every pass (conditions: loop iteration / message shape only)" % kind,
                   "encode's %s write is conditional on the data: %s; the header layout then disagrees with the tag count for some messages" % (kind, badc), enc.loc(b))
     ctx.floor("writer-unconditional", nw, 4, "layout writes in encode (count, offsets, tags, values)")
+    # what is written as an offset is computed from the lengths of self.values, here, at encoding time: a table kept in a field of its own
+    # (maintained by add_field, say) is a second copy of that information and can disagree with the values it describes
+    noff = 0
+    for (_, name, a, b), kind in zip([x for x in evs if x[1] not in ("reserve", "reserve_exact")], kinds):
+        if kind != "offset" or not a:
+            continue
+        noff += 1
+        ot = W.expand(a[-1])
+        fields_read = {s_[2] for s_ in values.subterms(ot) if isinstance(s_, tuple) and len(s_) == 3 and s_[0] == "field" and s_[1] == selfp}
+        from_lengths = any(isinstance(s_, tuple) and s_ and s_[0] == "len" for s_ in values.subterms(ot)) or any(is_call(s_) and callee_name(s_[1]) == "len" for s_ in values.subterms(ot))
+        ctx.check("writer-values", "encode/offsets-are-sums-of-value-lengths", fields_read <= {"values"} and from_lengths,
+                  "every offset written is computed from the lengths of self.values while encoding",
+                  "encode writes offsets taken from %s instead of computing them from the lengths of self.values: a stored table can be stale or inconsistent with the values"
+                  % (sorted("self." + f_ for f_ in fields_read - {"values"}) or fmt(ot)[:120]), enc.loc(b))
+    ctx.floor("writer-values", noff, 1, "offset writes in encode")
     ef = ctx.fn(MSG + "::encode_framed")
     fev = W.ev(ef.path)
     r = ok_payload(fev.ret())
